@@ -20,7 +20,10 @@ def r1(ctx, prog):
         if not loops:
             # iterating the live list directly while calling user code is worse
             live = [l for l in reent.range_loops(f) if f.field_of(l['range'])]
-            ctx.ob('C03.R1', '%s|snapshot' % f.name, False, 'dispatch does not iterate a snapshot of fd_events' + (' (iterates the live list)' if live else ''), where=f.loc(f.body))
+            # a range-for over the live list while user code runs is wrong whatever else is done; any other shape (an index loop over a copy, say) is not for this
+            # rule to judge: C03.R12 replays the dispatch with callbacks that disable and destroy siblings
+            ctx.ob('C03.R1', '%s|snapshot' % f.name, not live, 'dispatch iterates the live list fd_events while callbacks may change it' if live else
+                   'the dispatch is not a range-for over a copy of fd_events: no verdict on its shape here, its behaviour is replayed by C03.R12', where=f.loc(f.body))
             continue
         for l in loops:
             d, fq, mpath = reent.local_copy_of_member(f, l['range'])
@@ -453,4 +456,6 @@ def run(ctx):
     ctx.guard(r9, ctx, prog)
     ctx.guard(r10, ctx, prog)
     ctx.guard(C03_replay.r11, ctx, prog, BACKENDS)
+    from rules import C03_dispatch
+    ctx.guard(C03_dispatch.r12, ctx, prog)
     return prog
